@@ -2,7 +2,11 @@ package scen
 
 import (
 	"fmt"
+	"math/rand"
+	"sort"
+	"strings"
 	"sync"
+	"sync/atomic"
 	"time"
 
 	"verif/harness/mon"
@@ -595,3 +599,400 @@ func init() {
 	Registry["w2.staleround"] = scenStaleRound
 	Registry["w2.freshread"] = scenFreshLeaderRead
 }
+
+// ---------------------------------------------------------------- C16: outsiders cannot depose a healthy leader
+
+func scenDisrupt(x *Ctx) {
+	r := x.R
+	n := []int{3, 5, 5}[r.Intn(3)]
+	all, l, ok := x.startStatic(n)
+	if !ok {
+		return
+	}
+	x.Writes(1, l, 3, time.Second)
+	var nvs []string
+	if r.Intn(3) == 0 && x.addServer(l, "nv1", false) {
+		nvs = append(nvs, "nv1")
+	}
+	// let things settle: one leader, everybody in its term
+	time.Sleep(3 * x.ET())
+	l = x.C.Leader()
+	if l == "" {
+		x.Inconclusive("no stable leader before the window")
+		return
+	}
+	k := 1
+	if n == 5 {
+		k = 1 + r.Intn(2)
+	}
+	outs := subset(r, x.others2(l, all), k)
+	maj := minus(all, outs)
+	term := x.C.Node(l).Raft.Status().Term
+	x.C.ResetStall()
+	x.M.Emit(mon.Event{Kind: mon.KPhase, Str: fmt.Sprintf("c16.start|%s|%s|%d|%d", strings.Join(maj, ","), l, term, int64(x.ET()))})
+	x.Step("window: leader %s term %d, majority %v, outsiders %v", l, term, maj, outs)
+	// clients keep the leader busy - or, in a third of the runs, the cluster is idle, so that the outsiders' logs
+	// stay as up to date as everybody else's and only the recent-contact rule stands between them and a vote
+	var stopW atomic.Bool
+	var wg sync.WaitGroup
+	idle := r.Intn(3) == 0
+	if idle {
+		x.Step("idle cluster (no client writes in the window)")
+		stopW.Store(true)
+	}
+	wg.Add(1)
+	go func() {
+		defer wg.Done()
+		for !stopW.Load() {
+			x.C.Submit(3, nextOp("w3"), "W", l, 300*time.Millisecond, 0)
+			time.Sleep(3 * time.Millisecond)
+		}
+	}()
+	rest := append(append([]string(nil), maj...), nvs...)
+	acts := 2 + r.Intn(3)
+	for a := 0; a < acts; a++ {
+		d := time.Duration(float64(x.ET()) * (0.5 + r.Float64()*float64([]int{2, 6, 12}[r.Intn(3)])))
+		switch r.Intn(6) {
+		case 0:
+			x.Step("isolate %v for %v", outs, d)
+			x.C.Net.Partition(outs, rest)
+			time.Sleep(d)
+			x.C.Net.Heal()
+		case 1:
+			x.Step("cut inbound of %v for %v (they still reach the others)", outs, d)
+			x.C.Net.CutOneWay(rest, outs)
+			time.Sleep(d)
+			x.C.Net.Heal()
+		case 2:
+			x.Step("cut outbound of %v for %v", outs, d)
+			x.C.Net.CutOneWay(outs, rest)
+			time.Sleep(d)
+			x.C.Net.Heal()
+		case 3:
+			o := pick(r, outs)
+			x.Step("crash %s, restart after %v", o, d/2)
+			x.C.Node(o).Crash("c16")
+			x.C.Node(o).WaitDown(time.Second)
+			time.Sleep(d / 2)
+			x.C.Node(o).Restart()
+		case 4:
+			// isolate, let them campaign for long, rejoin with all their requests duplicated and delayed
+			x.Step("isolate %v for %v, rejoin through a noisy link", outs, d)
+			x.C.Net.Partition(outs, rest)
+			time.Sleep(d)
+			x.C.Net.Heal()
+			for _, o := range outs {
+				for _, m := range rest {
+					x.C.Net.SetLink(o, m, func(lk *simnet.Link) { lk.DupPct, lk.DelayMaxUs = 50, 3000 })
+				}
+			}
+		default:
+			o := pick(r, outs)
+			x.Step("remove %s from the cluster and leave it running", o)
+			x.C.Member(9, nextOp("rem"), false, o, false, l, 500*time.Millisecond)
+		}
+		time.Sleep(time.Duration(r.Intn(int(2*x.ET()/time.Millisecond))) * time.Millisecond)
+	}
+	time.Sleep(2 * x.ET())
+	stopW.Store(true)
+	wg.Wait()
+	x.M.Emit(mon.Event{Kind: mon.KPhase, Str: "c16.end"})
+	if st := x.C.StallMaxNs.Load(); st >= int64(x.ET())/4 {
+		x.Inconclusive("scheduler stall of %d ms >= a quarter of the election timeout during the window", st/1e6)
+	}
+	x.NT("c16-window")
+	x.C.Net.Heal()
+}
+
+func (x *Ctx) others2(id string, all []string) []string { return minus(all, []string{id}) }
+
+// ---------------------------------------------------------------- C17: lease reads
+
+func scenLease(x *Ctx) {
+	r := x.R
+	all, l, ok := x.startStatic(3)
+	if !ok {
+		return
+	}
+	// bounded message delay on every link
+	dmax := x.P.Int("delayus", 15000)
+	noise := func() {
+		for _, a := range x.C.IDs() {
+			for _, b := range x.C.IDs() {
+				if a != b {
+					x.C.Net.SetLink(a, b, func(lk *simnet.Link) { lk.DelayMaxUs = dmax })
+				}
+			}
+		}
+	}
+	x.Writes(1, l, 3, 2*time.Second)
+	side := []string{l}
+	if r.Intn(2) == 0 && x.addServer(l, "nv1", false) {
+		side = append(side, "nv1")
+		x.NT("non-voter")
+	}
+	noise()
+	l2cand := minus(all, []string{l})
+	lease := time.Duration(x.P.Int("lease", 100)) * time.Millisecond
+	if cur := x.C.Leader(); cur != l {
+		x.Inconclusive("leader changed during set-up")
+		return
+	}
+	x.C.ResetStall()
+	x.M.Emit(mon.Event{Kind: mon.KPhase, Str: fmt.Sprintf("c17.start|%s|%s|%d|%d", l, strings.Join(l2cand, ","), int64(lease), int64(x.ET()))})
+	// lease reads at the old leader across the whole episode
+	var stopR atomic.Bool
+	var wg sync.WaitGroup
+	for c := 0; c < 2; c++ {
+		wg.Add(1)
+		go func(c int) {
+			defer wg.Done()
+			rr := rand.New(rand.NewSource(x.Seed + int64(c)))
+			for !stopR.Load() {
+				x.C.Submit(20+c, nextOp(fmt.Sprintf("sr%d", 20+c)), "SR", l, 60*time.Millisecond, 0)
+				time.Sleep(time.Duration(rr.Intn(8000)) * time.Microsecond)
+			}
+		}(c)
+	}
+	time.Sleep(time.Duration(r.Intn(200)) * time.Millisecond)
+	switch r.Intn(3) {
+	case 0, 1:
+		x.Step("partition %v | %v", side, l2cand)
+		x.C.Net.Partition(side, l2cand)
+	default:
+		x.Step("cut %v -> %v only (old leader hears nobody)", l2cand, side)
+		x.C.Net.CutOneWay(l2cand, side)
+		x.C.Net.CutOneWay(side, l2cand)
+	}
+	l2 := x.C.WaitLeaderAmong(l2cand, 5*x.ET()+2*time.Second)
+	if l2 != "" {
+		x.Step("new leader %s acknowledges writes", l2)
+		for i := 0; i < 4; i++ {
+			x.C.Submit(2, nextOp("w2"), "W", l2, time.Second, 0)
+			time.Sleep(time.Duration(r.Intn(40)) * time.Millisecond)
+		}
+	}
+	time.Sleep(6*lease + time.Duration(r.Intn(200))*time.Millisecond)
+	stopR.Store(true)
+	wg.Wait()
+	x.M.Emit(mon.Event{Kind: mon.KPhase, Str: "c17.end"})
+	stall := x.C.StallMaxNs.Load()
+	if int64(lease)+x.C.Net.MaxRTT+stall >= int64(x.ET()) {
+		x.Inconclusive("timing assumption not met on this run: lease %d ms + max round trip %d ms + max stall %d ms >= election timeout %d ms", lease/time.Millisecond, x.C.Net.MaxRTT/1e6, stall/1e6, x.ET()/time.Millisecond)
+	}
+	x.NT("c17-window")
+	x.C.Net.Heal()
+	x.finishDirected()
+}
+
+func init() {
+	Registry["w2.disrupt"] = scenDisrupt
+	Registry["w2.lease"] = scenLease
+}
+
+// scenLingering: a node that legitimately became Candidate in an earlier leaderless period keeps campaigning
+// with growing terms while a healthy leader serves a majority it cannot reach directly; its real vote requests
+// reach a follower that is in prompt contact with that leader (C16), and lease reads run at the leader (C17).
+func scenLingering(x *Ctx) {
+	r := x.R
+	all, a, ok := x.startStatic(3)
+	if !ok {
+		return
+	}
+	x.Writes(1, a, 3, time.Second)
+	bc := x.others(a)
+	b, c := bc[0], bc[1]
+	// prevotes pass between b and c, real votes do not: both become candidates and linger
+	x.C.Net.AddRule(&simnet.Rule{Name: "drop-real-votes-b-c", Drop: true, Match: func(m *mon.Msg, reply bool) bool {
+		return !reply && m.Kind == "RV" && !m.Prevote && ((m.From == b && m.To == c) || (m.From == c && m.To == b))
+	}})
+	x.Step("crash leader %s; %s and %s grant each other's prevotes but never see each other's vote requests", a, b, c)
+	x.C.Node(a).Crash("lingering")
+	x.C.Node(a).WaitDown(time.Second)
+	isCand := func(id string) bool { s := x.C.Node(id).Sample(); return s != nil && s.State == "candidate" }
+	if !x.WaitFor(8*x.ET()+time.Second, func() bool { return isCand(b) && isCand(c) }) {
+		x.Inconclusive("the two survivors did not both become candidates")
+		return
+	}
+	x.Step("cut %s <-> %s completely, restart %s", b, c, a)
+	x.C.Net.Partition([]string{b}, []string{c})
+	x.C.Node(a).Restart()
+	l := x.C.WaitLeaderAmong(bc, 6*x.ET()+2*time.Second)
+	if l == "" {
+		x.Inconclusive("no leader after the restart")
+		return
+	}
+	out := c
+	if l == c {
+		out = b
+	}
+	// wait until the follower has heard from the leader
+	time.Sleep(x.ET() / 2)
+	if s := x.C.Node(l).Sample(); s == nil || s.State != "leader" {
+		x.Inconclusive("leader not stable at window start")
+		return
+	}
+	term := x.C.Node(l).Raft.Status().Term
+	maj := []string{l, a}
+	sort.Strings(maj)
+	lease := x.C.Opts.Lease
+	x.C.ResetStall()
+	x.M.Emit(mon.Event{Kind: mon.KPhase, Str: fmt.Sprintf("c16.start|%s|%s|%d|%d", strings.Join(maj, ","), l, term, int64(x.ET()))})
+	x.M.Emit(mon.Event{Kind: mon.KPhase, Str: fmt.Sprintf("c17.start|%s|%s|%d|%d", l, strings.Join(minus(all, []string{l}), ","), int64(lease), int64(x.ET()))})
+	x.Step("window: leader %s (term %d) with %s; lingering candidate %s keeps asking %s for its vote", l, term, a, out, a)
+	var stop atomic.Bool
+	var wg sync.WaitGroup
+	// if the follower ever moves to a higher term, the leader's link to it is lost from that instant (message
+	// loss is part of the quantifier): the leader then learns nothing and is protected by its lease alone
+	var cut atomic.Bool
+	x.C.Net.AddRule(&simnet.Rule{Name: "lose-leader-follower-link", Drop: true, Match: func(m *mon.Msg, reply bool) bool {
+		return cut.Load() && ((m.From == l && m.To == a) || (m.From == a && m.To == l))
+	}})
+	wg.Add(1)
+	go func() {
+		defer wg.Done()
+		for !stop.Load() {
+			if s := x.C.Node(a).Sample(); s != nil && s.Term > term {
+				cut.Store(true)
+				return
+			}
+			time.Sleep(300 * time.Microsecond)
+		}
+	}()
+	wg.Add(2)
+	go func() { // lease reads at the leader
+		defer wg.Done()
+		for !stop.Load() {
+			x.C.Submit(21, nextOp("sr21"), "SR", l, 50*time.Millisecond, 0)
+			time.Sleep(time.Duration(500+r.Intn(1500)) * time.Microsecond)
+		}
+	}()
+	go func() { // writes at whoever the outsider side believes leads (only succeeds if the outsider got elected)
+		defer wg.Done()
+		for !stop.Load() {
+			x.C.Submit(22, nextOp("w22"), "W", out, 40*time.Millisecond, 0)
+			time.Sleep(2 * time.Millisecond)
+		}
+	}()
+	time.Sleep(time.Duration(4+r.Intn(4)) * x.ET())
+	stop.Store(true)
+	wg.Wait()
+	x.M.Emit(mon.Event{Kind: mon.KPhase, Str: "c16.end"})
+	x.M.Emit(mon.Event{Kind: mon.KPhase, Str: "c17.end"})
+	if st := x.C.StallMaxNs.Load(); st >= int64(x.ET())/4 {
+		x.Inconclusive("scheduler stall of %d ms >= a quarter of the election timeout during the window", st/1e6)
+	}
+	x.NT("c16-window")
+	x.NT("lingering-candidate")
+	x.C.Net.Heal()
+}
+
+func init() { Registry["w2.lingering"] = scenLingering }
+
+// scenLeaseVote: a follower grants a prevote while it has lost contact with the leader, is back in prompt contact
+// when the candidate's real vote request arrives, and the leader keeps serving lease reads (C17, C16).
+func scenLeaseVote(x *Ctx) {
+	r := x.R
+	all, a, ok := x.startStatic(3)
+	if !ok {
+		return
+	}
+	x.Writes(1, a, 3, time.Second)
+	time.Sleep(x.ET()) // idle: everybody's log is equally up to date
+	if x.C.Leader() != a {
+		x.Inconclusive("leader changed during set-up")
+		return
+	}
+	bc := x.others(a)
+	term := x.C.Node(a).Raft.Status().Term
+	// real vote requests are held until the follower is back in contact with the leader
+	gate := simnet.NewGate()
+	x.C.Net.AddRule(&simnet.Rule{Name: "hold-real-votes", Gate: gate, Match: func(m *mon.Msg, reply bool) bool {
+		return !reply && m.Kind == "RV" && !m.Prevote && m.To != a
+	}})
+	// the leader never hears from a candidate directly
+	x.C.Net.AddRule(&simnet.Rule{Name: "leader-deaf-to-votes", Drop: true, Match: func(m *mon.Msg, reply bool) bool {
+		return !reply && m.Kind == "RV" && m.To == a
+	}})
+	x.Step("leader %s loses its outbound links until somebody has won a prevote", a)
+	x.C.Net.CutOneWay([]string{a}, bc)
+	if !x.WaitFor(4*x.ET(), func() bool { return gate.HeldCount() > 0 }) {
+		x.Inconclusive("nobody became candidate")
+		gate.Release()
+		return
+	}
+	// who is the candidate, who granted the prevote?
+	cand, voter := "", ""
+	for _, id := range bc {
+		if s := x.C.Node(id).Sample(); s != nil && s.State == "candidate" {
+			cand = id
+		}
+	}
+	if cand == "" {
+		x.Inconclusive("no candidate found")
+		gate.Release()
+		return
+	}
+	voter = minus(bc, []string{cand})[0]
+	if s := x.C.Node(voter).Sample(); s == nil || s.State != "follower" || s.Term != term {
+		x.Inconclusive("the other node is not a follower of the old term any more")
+		gate.Release()
+		return
+	}
+	lease := x.C.Opts.Lease
+	x.C.ResetStall()
+	x.M.Emit(mon.Event{Kind: mon.KPhase, Str: fmt.Sprintf("c17.start|%s|%s|%d|%d", a, strings.Join(bc, ","), int64(lease), int64(x.ET()))})
+	x.Step("%s is candidate (term %d) with %s's prevote; %s <-> %s restored, then the vote request is delivered", cand, term+1, voter, a, voter)
+	x.C.Net.ClearLinks() // the rules (held vote requests, deaf leader) stay
+	x.C.Net.AddRule(&simnet.Rule{Name: "leader-cannot-reach-candidate", Drop: true, Match: func(m *mon.Msg, reply bool) bool {
+		return !reply && m.From == a && m.To == cand
+	}})
+	var cut atomic.Bool
+	x.C.Net.AddRule(&simnet.Rule{Name: "lose-leader-voter-link", Drop: true, Match: func(m *mon.Msg, reply bool) bool {
+		return cut.Load() && ((m.From == a && m.To == voter) || (m.From == voter && m.To == a))
+	}})
+	var stop atomic.Bool
+	var wg sync.WaitGroup
+	wg.Add(3)
+	go func() {
+		defer wg.Done()
+		for !stop.Load() {
+			if s := x.C.Node(voter).Sample(); s != nil && s.Term > term {
+				cut.Store(true)
+				return
+			}
+			time.Sleep(200 * time.Microsecond)
+		}
+	}()
+	go func() {
+		defer wg.Done()
+		for !stop.Load() {
+			x.C.Submit(21, nextOp("sr21"), "SR", a, 50*time.Millisecond, 0)
+			time.Sleep(time.Duration(300+r.Intn(1000)) * time.Microsecond)
+		}
+	}()
+	go func() {
+		defer wg.Done()
+		for !stop.Load() {
+			x.C.Submit(22, nextOp("w22"), "W", cand, 40*time.Millisecond, 0)
+			time.Sleep(time.Millisecond)
+		}
+	}()
+	_ = all
+	// the voter is back in prompt contact with the leader; now the candidate's vote request arrives
+	time.Sleep(3*x.C.Opts.HB + 5*time.Millisecond)
+	gate.Release()
+	time.Sleep(time.Duration(3+r.Intn(3)) * x.ET())
+	stop.Store(true)
+	wg.Wait()
+	x.M.Emit(mon.Event{Kind: mon.KPhase, Str: "c17.end"})
+	stall := x.C.StallMaxNs.Load()
+	if int64(lease)+x.C.Net.MaxRTT+stall >= int64(x.ET()) {
+		x.Inconclusive("timing assumption not met on this run: lease %d ms + max round trip %d ms + max stall %d ms >= election timeout %d ms", lease/time.Millisecond, x.C.Net.MaxRTT/1e6, stall/1e6, x.ET()/time.Millisecond)
+	}
+	x.NT("c17-window")
+	x.NT("lease-vote")
+	x.C.Net.Heal()
+}
+
+func init() { Registry["w2.leasevote"] = scenLeaseVote }
